@@ -81,6 +81,9 @@ func (r *run) storeTo(addr value, v value) {
 				r.traceEvent("wr:" + loc)
 			}
 		}
+		if label, ok := r.frozen[p]; ok {
+			r.frozenHit(label)
+		}
 		if loc, ok := r.watch[p]; ok {
 			// a map stored into a watched location is watched under its name
 			if m, isMap := v.(*smap); isMap && m != nil {
@@ -655,6 +658,16 @@ func (r *run) callBuiltin(caller *frame, callpos token.Pos, fn *ssa.Builtin, arg
 		if len(add) == 0 {
 			return x
 		}
+		if len(r.frozen) > 0 && cap(x) >= len(x)+len(add) {
+			// appending in place writes the cells behind the slice
+			full := x[:len(x)+len(add)]
+			for i := len(x); i < len(full); i++ {
+				if label, ok := r.frozen[&full[i]]; ok {
+					r.frozenHit(label)
+					break
+				}
+			}
+		}
 		cp := make([]value, len(add))
 		for i, e := range add {
 			cp[i] = copyVal(e)
@@ -681,6 +694,9 @@ func (r *run) callBuiltin(caller *frame, callpos token.Pos, fn *ssa.Builtin, arg
 			tmp[i] = copyVal(src[i])
 		}
 		for i := 0; i < n; i++ {
+			if label, ok := r.frozen[&dst[i]]; ok {
+				r.frozenHit(label)
+			}
 			store(&dst[i], tmp[i])
 		}
 		return mkBV(64, uint64(n))
@@ -703,6 +719,9 @@ func (r *run) callBuiltin(caller *frame, callpos token.Pos, fn *ssa.Builtin, arg
 			}
 		case []value:
 			for i := range x {
+				if label, ok := r.frozen[&x[i]]; ok {
+					r.frozenHit(label)
+				}
 				x[i] = zeroLike(x[i])
 			}
 		}
